@@ -19,9 +19,12 @@ def pkt_impls(prefix, names, expmod):
     return o
 def ser_impls(names):
     o=[]
-    for full in names:
+    for k,full in enumerate(names):
         short=full.split('::')[-1]
         o.append(f"""    impl zvt_builder::ZvtSerializer for {short} {{
+        /// identity of the packet type (position in the frozen reply table), so that "which type does this variant
+        /// carry" is an obligation instead of a type error
+        open spec fn tid() -> int {{ {k} }}
         uninterp spec fn zd_ok(b: Seq<u8>, v: Self) -> bool;
         #[verifier::external_body]
         fn zvt_deserialize(bytes: &[u8]) -> (r: zvt_builder::ZVTResult<(Self, &[u8])>) {{ unimplemented!() }}
@@ -53,7 +56,7 @@ for m,enums in bymod.items():
         arms=[]; known=[]
         for v,ty in e['variants']:
             c,i=P[ty]
-            arms.append(f"                Self::{v}(x) => b.len() >= 2 && b[0] == {c} && b[1] == {i} && <{tyref(ty)} as zvt_builder::ZvtSerializer>::zd_ok(b, x),")
+            arms.append(f"                Self::{v}(x) => b.len() >= 2 && b[0] == {c} && b[1] == {i} && zvt_builder::tid_of(x) == {allp.index(ty)} /* {ty} */ && zvt_builder::zd_ok_of(b, x),")
             known.append(f"(c == {c} && i == {i})")
         o.append(f"""    // ------------------------------------------------------------------ {name}
     //@ item {srcfile[m]} | enum {name}
